@@ -49,7 +49,9 @@ func runC42(c *core.Ctx) {
 			continue
 		}
 		// dominated by the quota test being false
-		var tested ssa.Value
+		// every dominating condition known to be false contributes its disjuncts (`if a || b` lowers either to
+		// one phi condition or to two nested conditions)
+		var testedCalls []ssa.Value
 		for _, cd := range core.CondsAt(r.Block()) {
 			if !cd.Taken {
 				ds := core.Disjuncts(cd.V)
@@ -60,17 +62,17 @@ func runC42(c *core.Ctx) {
 					}
 				}
 				if calls == len(ds) && calls > 0 {
-					tested = cd.V
+					testedCalls = append(testedCalls, ds...)
 				}
 			}
 		}
-		if tested == nil {
+		if len(testedCalls) == 0 {
 			c.Fail("C42/accept-only-under-quota", name, r.Pos(), "a message of a known peer is accepted without the quota test having failed to trigger")
 			continue
 		}
 		num, size := false, false
 		var tests []*ssa.Call
-		for _, d := range core.Disjuncts(tested) {
+		for _, d := range testedCalls {
 			call := d.(*ssa.Call)
 			tests = append(tests, call)
 			a0, a1 := core.ExprKey(call.Call.Args[1]), core.ExprKey(call.Call.Args[2])
